@@ -253,7 +253,16 @@ Qed.
 Lemma pf_exponent_fst tail i j : fst (pf_exponent tail i) = fst (pf_exponent tail j).
 Proof.
   unfold pf_exponent. destruct tail as [|c t]; [reflexivity|].
-  destruct ((c =? 101) || (c =? 69)); [|reflexivity]. destruct (0 <? snd (parse_int t)); reflexivity.
+  destruct ((c =? 101) || (c =? 69)); [|reflexivity]. cbv zeta.
+  rewrite !pf_expdigits_snd.
+  set (sgn := match t with s :: _ => (s =? 43) || (s =? 45) | [] => false end).
+  set (ds := take_digits (if sgn then tl t else t)). pose proof (len_nonneg ds).
+  rewrite (pf_expdigits_fst _ 0 (i + 1 + (if sgn then 1 else 0)) (j + 1 + (if sgn then 1 else 0))).
+  destruct (len ds =? 0) eqn:E.
+  - replace (i + 1 + (if sgn then 1 else 0) <? i + 1 + (if sgn then 1 else 0) + len ds) with false by lia.
+    replace (j + 1 + (if sgn then 1 else 0) <? j + 1 + (if sgn then 1 else 0) + len ds) with false by lia. reflexivity.
+  - replace (i + 1 + (if sgn then 1 else 0) <? i + 1 + (if sgn then 1 else 0) + len ds) with true by lia.
+    replace (j + 1 + (if sgn then 1 else 0) <? j + 1 + (if sgn then 1 else 0) + len ds) with true by lia. reflexivity.
 Qed.
 
 (* ParseFloat on  sign digits [. digits] [exponent]: when the digits denote n < 2^53 and the decimal
